@@ -163,8 +163,10 @@ Section Git.
     else if for_commit && negb (is_some (current_commit m)) then Some CommitFlagUnsupported
     else None.
 
-  (* main(): validate_args, then "Convert the specified commit to a hash, if needed" and the
-     ancestor check *)
+  (* main() without --check: validate_args, then "Convert the specified commit to a hash, if needed"
+     and the ancestor check.  (With --check main() returns right after loading the tasks, before
+     the commit is resolved: nothing is planned or executed, so an unknown --at-least symbol is not
+     reported then; that path is exercised by the end-to-end part of the C15 check.) *)
   Definition validate_flags (f : flags) (m : mode) : outcome :=
     match validate_args f m with
     | Some e => Rejected e
